@@ -73,6 +73,15 @@ def gen_cube(rng, big=False, uncovered=False):
     return {"dims": specs, "shape": shape, "format": list(fmt), "N": N}
 
 
+def gen_lopsided_cube(rng):
+    """cubelib.gen_lopsided as a count cube: one-axis dimensions, N 30..120, extents 2-5, exact / padded / inferred shape"""
+    N, cols = cubelib.gen_lopsided(rng)
+    specs = [cubelib.make_spec(rng, col, common) for col, common, _ in cols]
+    how = rng.choice(["inferred", "exact", "larger"])
+    shape = None if how == "inferred" else [e + (rng.choice([0, 1]) if how == "larger" else 0) for _, _, e in cols]
+    return {"dims": specs, "shape": shape, "format": list(rng.choice(FORMATS)), "N": N}
+
+
 # --------------------------------------------------------------------------- observation
 def abstract_result(res, fmt):
     """-> (values ndarray of object: int or None for NaN, validity ndarray of bool, missing ndarray of bool)"""
@@ -251,7 +260,9 @@ def run(ctx):
                 "exact / larger than the data / inferred, one axis at the 255/256/257/65535/65536/65537 boundaries in a share "
                 "of the cubes (cells compared sparsely there), common most-frequent/rare/absent, report formats NaN, (0,False), "
                 "(-7,False), plain 0; plus cubes outside the theorem's domain (extent <= a listed value or the common: NumPy "
-                "aliasing with the margin slot or IndexError) to tie the array model itself; a case = one sub-cube block, "
+                "aliasing with the margin slot or IndexError) to tie the array model itself; lopsided cubes: N in 30..120, 2-4 one-axis dims of "
+                "extent 2-4 with one frequent category (60-90 % of the rows) and rare categories of 1-3 rows whose last row usually "
+                "lies in the next dimension's frequent category; a case = one sub-cube block, "
                 "distinct per literal, non-trivial when N > 0 and it has at least one dimension")
     ctx.trusted = list(core.STD_TRUSTED) + [
         "SetOps: set_intersect_merge_np(base, rowids) = inter_spec base rowids on increasing inputs (property C08)",
@@ -289,7 +300,11 @@ def run(ctx):
         return out
 
     n_rand = 30000 if thorough else 1200
+    n_lop = 1500 if thorough else 150
+    every = n_rand // n_lop
     for i in range(n_rand):
+        if i % every == 0:          # interleaved so that the heavier cases (N up to 120) spread over the Coq shards
+            add(gen_lopsided_cube(ctx.rng))
         r = ctx.rng.random()
         case = gen_cube(ctx.rng, big=(r < 0.12), uncovered=(0.12 <= r < 0.2))
         if not in_domain(case):
@@ -303,7 +318,7 @@ def run(ctx):
         for case in exhaustive_cases():
             add(case)
             n_exh += 1
-    ctx.coverage.update({"random_cubes": n_rand, "exhaustive_cubes": n_exh, "cubes": n_cubes, "blocks_compared_in_coq": len(cases),
+    ctx.coverage.update({"random_cubes": n_rand, "lopsided_cubes": len(range(0, n_rand, every)), "exhaustive_cubes": n_exh, "cubes": n_cubes, "blocks_compared_in_coq": len(cases),
                          "cubes_outside_domain": n_unc, "index_errors": n_raised})
     if n_exh:
             ctx.coverage["exhaustive_subspace"] = ("all 2-dimension x 3-row x 3-category x common in {0,1,2,absent} cubes (%d) "
